@@ -1019,3 +1019,17 @@ package graphql
 //@   props C12
 //@   nosafety
 //@   orderfree
+
+// ---- construction lists taken from Go maps come out in a defined order (C12, C10) ----
+//@ func NewDirective
+//@   props C12 C10
+//@   nosafety
+//@   orderfree
+//@ func defineFieldMap
+//@   props C12 C10
+//@   nosafety
+//@   orderfree
+//@ func Schema.AddImplementation
+//@   props C12 C10 C11
+//@   nosafety
+//@   orderfree
